@@ -383,6 +383,8 @@ func runC08(r *Run) {
 	} else {
 		r.Bad("R8", "anchor/ConvertVestingAccount", "", "not found")
 	}
+	r.Rule("R9", "PATH.merge-reads-the-old-schedule (same rule code as C09 R9): in addGrant no store into the account's StartTime, EndTime, LockupPeriods or VestingPeriods can precede a DisjunctPeriods call — a merge that reads the already updated start re-bases the account's existing vesting events earlier for a back-dated grant, so LockedCoins falls below the coins that are really unvested")
+	checkMergeBeforeUpdate(r, "R9")
 }
 
 // checkEndTimeStores (C08 R6, also evaluated as C09 R6): every store to a vesting account's EndTime depends
